@@ -17,7 +17,7 @@ def main(seed, tier):
     ndet, bad = c06.determinism_probe(items, seed, 4 if tier == "quick" else 24)
     if bad:
         raise HarnessError("determinism self-check failed: %r" % bad[:3])
-    agg = {"runs": 0, "steps": 0, "plans": 0, "inside": 0, "after": 0, "dups": 0}
+    agg = {"runs": 0, "steps": 0, "plans": 0, "inside": 0, "after": 0, "dups": 0, "forkserver_runs": 0, "forkserver_discrepancy": 0}
     fired, configured, probes, ref_exits, kinds = {}, {}, {}, {}, {}
     violations, samples = [], []
     distinct = set()
@@ -25,6 +25,8 @@ def main(seed, tier):
         for k in ("runs", "steps", "plans", "inside", "after"):
             agg[k] += out[k]
         agg["dups"] += out.get("dups", 0)
+        agg["forkserver_runs"] += out.get("forkserver_runs", 0)
+        agg["forkserver_discrepancy"] += out.get("forkserver_discrepancy", 0)
         merge(fired, out["fired"])
         merge(configured, out["configured"])
         merge(probes, out["probes"])
@@ -63,6 +65,9 @@ def main(seed, tier):
         "probes_stuck_at_zero": stuck,
         "determinism_selfcheck": {"items": ndet, "executions_each": 2, "mismatches": 0},
         "runs_per_hour": int(agg["runs"] / max(t.s(), 0.001) * 3600),
+        "runs_via_forkserver": agg["forkserver_runs"],
+        "runs_via_fresh_exec": agg["runs"] - agg["forkserver_runs"],
+        "forkserver_vs_exec_discrepancies": agg["forkserver_discrepancy"],
         "duplicate_violation_reports_suppressed": agg["dups"],
         "known_findings_matched": known,
         "real_code": "the complgen binary built from /repo's working tree (main.rs, whole library, std BufWriter/write_all/EINTR loops, clap, anyhow)",
@@ -75,6 +80,8 @@ def main(seed, tier):
         "the input quantifier (all byte strings) is sampled by the seeded workload; the fault dimension is enumerated per sampled input",
     ])
     log("C06: runs=%d plans=%d fired-kinds=%d violations(new)=%d known=%d wall=%.1fs" % (agg["runs"], agg["plans"], len(fired), new, known, t.s()))
+    if agg["forkserver_discrepancy"]:
+        raise HarnessError("%d run(s) violated under the fork server but not under a fresh exec: the fork server misrepresents the binary" % agg["forkserver_discrepancy"])
     if stuck and tier == "thorough":
         log("probes stuck at zero: %s" % stuck)
     return 1 if new else 0
